@@ -453,6 +453,24 @@ def run_case(r, obs):
                          "yield_on_remainder=%s).run(iter(%r)) = %r, block model gives %r"
                          % (kind, n, mode, reset, yor, xs, got, exp))
             obs.count("oracle_evaluations")
+            if kind not in ("fr_custom", "run_named") and N in (n - 1, n, n + 1, r["nmax"]):
+                # the options given positionally, in the order of the documented signature
+                # FillRequest(el, bufsize, reset, buffer_input, buffer_output, yield_on_remainder)
+                reset_p = False if (kind.startswith("run_") and not has_reset(kind)) else reset
+                frp = lena.core.FillRequest(make_el(kind), n, reset_p,
+                                            True if mode == "in" else None,
+                                            True if mode == "out" else None, yor)
+                try:
+                    with _guard(obs, 400 * (N + 2) + 2000):
+                        gotp = list(frp.run(iter(xs)))
+                except StepBudgetExceeded as e:
+                    gotp = "does not return: %s" % e
+                obs.count("run_executions")
+                obs.check(gotp == exp, "run:%s:buffer_%s%s:options-given-positionally"
+                          % (kind.split("_")[0], mode, ":yor" if yor else ""),
+                          "FillRequest(%s, %d, %r, %r, %r, %r).run(iter(%r)) = %r, block model "
+                          "gives %r" % (kind, n, reset_p, True if mode == "in" else None,
+                                        True if mode == "out" else None, yor, xs, gotp, exp))
             if N == 0:
                 obs.check(got == [], "run:empty-flow-yields", "empty flow yielded %r" % (got,))
             if N in (0, 1, n, 2 * n + 1, r["nmax"]):
@@ -667,6 +685,39 @@ def run_case(r, obs):
                               "of it, both driven by the history %s: original %r (expected %r), "
                               "copy %r (expected %r)"
                               % (kind, n, mode, reset, " ".join(hist), go, exp, gc, expc))
+            if mask % 3 == 1 and N:
+                # the result of request() is not read at once: it is dropped unread at the
+                # masked points (nothing was taken, so nothing may be lost), or read only after
+                # the next fill
+                for how in ("dropped-unread", "read-after-the-next-fill"):
+                    fr2 = make_fr(kind, n, mode, reset, False)
+                    got2, pending = [], None
+                    try:
+                        with _guard(obs, 1200 * (N + 2) + 6000):
+                            for i, x in enumerate(xs):
+                                fr2.fill(x)
+                                if pending is not None:
+                                    got2.extend(pending)
+                                    pending = None
+                                if mask >> i & 1:
+                                    req = fr2.request()
+                                    if how == "read-after-the-next-fill":
+                                        pending = req
+                                    del req
+                            if pending is not None:
+                                got2.extend(pending)
+                            got2.extend(fr2.request())
+                    except StepBudgetExceeded as e:
+                        obs.fail("fill-request:buffer_%s:nontermination:%s" % (mode, how), "%s" % e)
+                        continue
+                    obs.count("histories")
+                    if got2 != exp:
+                        obs.fail("fill-request:buffer_%s:%s:request-result-%s"
+                                 % (mode, classify_diff(got2, exp, xs, n), how),
+                                 "FillRequest(%s, bufsize=%d, buffer_%sput, reset=%s), history %s "
+                                 "with every request() result %s: all results together %r, run() "
+                                 "on the whole flow gives %r"
+                                 % (kind, n, mode, reset, " ".join(hist), how, got2, exp))
             if got != exp:
                 shape = classify_diff(got, exp, xs, n)
                 cond = ("requests-on-block-boundaries" if aligned else
@@ -916,3 +967,5 @@ RULE += (' Added: a run element whose reset method is given through reset_name (
 RULE += (' Added: values whose == answers with a non-bool / True for everything / raises, at every '
          'flow position; flows of 999..2600 values (hundreds to thousands of blocks buffered between '
          'two requests, Split with its default bufsize).')
+RULE += (' Added: the options given positionally in the order of the documented signature; '
+         'request() results that are dropped unread or read only after the next fill.')
